@@ -16,11 +16,15 @@ the values of the port signals and the clock levels) and `ibit`, the bits of a P
 * A **synchronous** read port that is enabled at an active edge of its clock shows afterwards the addressed
   row *as it was before the edge*, except for the bits hit at this edge by a port of its transparency set,
   which show the data being written; otherwise it keeps what it showed.
-* A testbench reading row `i` sees row `i`; a testbench writing bits `[start, stop)` of row `i` replaces them.
+* A testbench reading row `i` sees row `i`; a testbench writing bits `[start, stop)` of row `i` replaces them
+  (rows that do not exist cannot be named: `rowRead` / `rowWrite` are only used for `i` below the depth).
 
-Two ports hitting the same bit at one edge, and reads beyond the depth, are outside the property; `newBit`
-takes the *first* port of the list there (the simulator takes the last), so that nothing can be proved about
-these cases by accident: every theorem relating the model to this file needs the hypothesis that excludes them.
+Two cases are left open here. Reads beyond the depth: the property says they are unspecified. Two ports hitting
+the same bit of one row at one edge: the property text does not exclude this, but "the bit becomes the data bit
+of the port that hits it" has no single reading when two ports hit it with different data — there is no "the"
+new data. `newBit` takes the *first* port of the list there (the simulator takes the last), so that nothing can
+be proved about these cases by accident: every theorem relating the model to this file needs the hypothesis
+that excludes them (`NoCollision`, `ReadsInRange`), and says so.
 -/
 
 namespace Amaranth.MemRows
